@@ -21,6 +21,7 @@ func init() {
 	generators["multiterm"] = genMultiTerm
 	generators["yieldstop"] = genYieldStop
 	generators["restartinflight"] = genRestartInFlight
+	generators["leftover"] = genLeftover
 }
 
 func anyLatency(r rng, h time.Duration) Latency {
@@ -339,7 +340,7 @@ func genFaulty(r rng, k int) *Spec {
 		switch r.IntN(9) {
 		case 0, 1:
 			from := at
-			s.Rules = append(s.Rules, FaultRule{Client: x, Op: r.pickS("", "Update", "Get", "Create", "Watch"), From: from, To: from + r.dur(200*ms, 5*sec),
+			s.Rules = append(s.Rules, FaultRule{Client: x, Op: r.pickS("", "Update", "Get", "Create", "Watch", "Delete"), From: from, To: from + r.dur(200*ms, 5*sec),
 				Kind: r.pickS("err", "hang", "acklost"), Err: r.pickS("timeout", "noresponders", "connclosed", "io")})
 		case 2:
 			s.Actions = append(s.Actions, Action{At: at, Kind: "partition", Inst: x}, Action{At: at + r.dur(200*ms, 8*sec), Kind: "heal", Inst: x})
@@ -390,7 +391,13 @@ func genC06(r rng, k int) *Spec {
 	tr := 3*sec + r.dur(0, 2*h)
 	switch rem {
 	case "stop-delete":
-		s.Actions = append(s.Actions, Action{At: tr, Kind: "stop", Inst: "i0", Stop: &StopVariant{DeleteKey: true, Wait: r.chance(0.5)}})
+		sv := &StopVariant{DeleteKey: true, Wait: r.chance(0.5)}
+		if r.chance(0.4) {
+			// the shutdown Delete itself meets a fault: applied but not acknowledged, or an error
+			sv.Timeout = 10 * sec
+			s.Rules = append(s.Rules, FaultRule{Client: "i0", Op: "Delete", Kind: r.pickS("acklost", "acklost", "err", "hang"), Err: "timeout", Hang: r.pickD(300*ms, 1*sec, 2*sec)})
+		}
+		s.Actions = append(s.Actions, Action{At: tr, Kind: "stop", Inst: "i0", Stop: sv})
 	case "stop-nodelete":
 		s.Actions = append(s.Actions, Action{At: tr, Kind: "stop", Inst: "i0", Stop: &StopVariant{Plain: r.chance(0.5)}})
 	case "crash":
@@ -479,7 +486,7 @@ func HostilePayload(r rng, p int, own, other string, ownTok string) string {
 	case 20:
 		return fmt.Sprintf(`{"id":%q,"token":"t","priority":-5}`, other)
 	case 21:
-		return fmt.Sprintf(`{"id":%q,"token":"t","priority":1e30}`, other)
+		return fmt.Sprintf(`{"id":%q,"token":"t","priority":%s}`, other, r.pickS("1e30", "1e19", "9223372036854775807", "9223372036854775808", "18446744073709551616", "2.5", "1e1"))
 	default:
 		return `{}`
 	}
@@ -962,6 +969,9 @@ var ysCells = []ysCell{
 	{"follower", "i1", "settleAsFollower", 1},
 	{"follower", "i1", "watchAfterLeaderTest", 1},
 	{"leader2", "i0", "heartbeatAfterRevLoad", 2},
+	{"leader2", "i0", "promoteGoroutineEntry", 1},
+	{"succession", "i1", "promoteGoroutineEntry", 2},
+	{"deltail", "i0", "stopBetweenReadAndDelete", 1},
 }
 
 // YieldStopTotal is the size of the full enumeration.
@@ -993,6 +1003,24 @@ func genYieldStop(r rng, k int) *Spec {
 	case "succession":
 		s.Actions = append(s.Actions, Action{At: 10 * ms, Kind: "start", Inst: "i0"}, Action{At: 500 * ms, Kind: "start", Inst: "i1"},
 			Action{At: 3 * sec, Kind: "stop", Inst: "i0", Stop: &StopVariant{DeleteKey: true}})
+	}
+	if cell.tmpl == "deltail" {
+		// the graceful shutdown itself is parked between its ownership read and its Delete;
+		// the election is started again meanwhile (its lifecycle lock is free by then), and
+		// the Delete lands in the new run
+		s.Actions = append(s.Actions, Action{At: 10 * ms, Kind: "start", Inst: "i0"}, Action{At: 300 * ms, Kind: "start", Inst: "i1"},
+			Action{At: 2 * sec, Kind: "stop", Inst: "i0", Stop: &StopVariant{DeleteKey: true, Wait: vi%2 == 0, Timeout: 10 * sec}},
+			Action{After: ms, Kind: "waitbreak", Break: "ys", D: 5 * sec},
+			Action{After: time.Nanosecond, Kind: "start", Inst: "i0"},
+			Action{After: delta + r.pickD(ms, 30*ms, 200*ms), Kind: "release", Break: "ys"},
+			Action{After: ms, Kind: "waitapi", Inst: "i0", D: 7 * sec},
+		)
+		// (the parked window is exactly the read-then-delete window of the recorded finding
+		// C01 delete-foreign:after-own-read: not part of the benign premise)
+		s.Benign = false
+		s.Duration = 9 * sec
+		s.Sample = sampleFor(h)
+		return s
 	}
 	s.Actions = append(s.Actions, Action{After: ms, Kind: "waitbreak", Break: "ys", D: 12 * sec})
 	x := cell.inst
@@ -1084,6 +1112,56 @@ func genRestartInFlight(r rng, k int) *Spec {
 		Action{After: delta + time.Nanosecond, Kind: "release", Break: "rf"},
 	)
 	s.Duration = 6*h + 6*sec
+	s.Sample = sampleFor(h)
+	return s
+}
+
+// ---------------------------------------------------------------------------
+// leftover: fault-free successions in which several acquisition rounds of the same
+// instance run side by side (every watch event duplicated, periodic check) and the
+// winning round is held for a preemption-sized moment between its store call and
+// becomeLeader, or at the other in-library windows, so that the leftover rounds
+// overlap it
+// ---------------------------------------------------------------------------
+
+func genLeftover(r rng, k int) *Spec {
+	n := 2 + r.IntN(2)
+	h := r.pickD(200*ms, 500*ms, 1*sec)
+	s := &Spec{TTL: time.Duration(r.pickI(3, 5, 10)) * h, Benign: true, NoPreempt: true, Tags: []string{"leftover"}}
+	s.Insts = mkInsts(n, 1, h)
+	mode := k % 3 // 0: no priorities, 1: takeover on with equal priorities, 2: takeover on for some, equal priorities
+	for i := range s.Insts {
+		s.Insts[i].BlockPromote = r.chance(0.5)
+		s.Insts[i].ValInterval = r.pickD(0, h, 2*h)
+		if mode > 0 {
+			s.Insts[i].Priority = 2
+			s.Insts[i].Takeover = mode == 1 || r.chance(0.5)
+		}
+	}
+	s.Lat = Latency{Min: 0, Max: r.pickD(2*ms, h/10)}
+	s.Watch = WatchPolicy{DelayMax: r.pickD(0, 20*ms, 300*ms), DupP: 1.0}
+	for i := 0; i < n; i++ {
+		s.Actions = append(s.Actions, Action{At: time.Duration(10+200*i) * ms, Kind: "start", Inst: s.Insts[i].Name})
+	}
+	site := []string{"becomeLeaderEntry", "becomeLeaderEntry", "roundBeforeAttempt", "settleAsFollower", "watchAfterLeaderTest"}[(k/3)%5]
+	t := 3 * sec
+	rounds := 2 + r.IntN(2)
+	for j := 0; j < rounds; j++ {
+		name := fmt.Sprintf("lo%d", j)
+		// the current leader leaves with key deletion; the first follower goroutine to reach
+		// the site afterwards is held for a moment
+		s.Breaks = append(s.Breaks, BreakSpec{Name: name, Client: "*", Op: "yield:" + site, Nth: 1, Phase: "site"})
+		lead := s.Insts[j%n].Name
+		s.Actions = append(s.Actions,
+			Action{At: t, Kind: "arm", Break: name},
+			Action{After: time.Nanosecond, Kind: "stop", Inst: lead, Stop: &StopVariant{DeleteKey: true, Wait: true}},
+			Action{After: ms, Kind: "waitbreak", Break: name, D: 3 * sec},
+			Action{After: r.pickD(5*ms, 20*ms, 100*ms, h/2), Kind: "release", Break: name},
+			Action{After: 2 * sec, Kind: "start", Inst: lead},
+		)
+		t += 6*sec + 4*h
+	}
+	s.Duration = 20*h + 4*sec
 	s.Sample = sampleFor(h)
 	return s
 }
